@@ -476,7 +476,11 @@ fn py_session(run: &mut Run, idx: usize, rng: &mut Rng, w: &World) {
             }
         } else if kind < 9 {
             // ---- Dictionary.lookup(surface, out=): the cell of `out` is rewritten in place, also when the call fails ----
-            let q = if rng.chance(1, 12) { "あ".repeat(16384 + rng.below(20)) } else if rng.chance(2, 3) { rng.pick(&w.lex.rows).surface.clone() } else { gen_text(rng, w, 3) };
+            // user-dictionary words whose A/B units or word structure are `U` references: the raw word ids the binding hands out
+            // (Morpheme.get_word_info()) carry the dictionary number in their upper bits only for such units
+            let uref: Vec<&crate::dict::Row> = w.users.iter().flatten().filter(|r| r.left >= 0 && (r.split_a.contains('U') || r.split_b.contains('U') || r.wstruct.contains('U'))).collect();
+            let q = if !uref.is_empty() && rng.chance(1, 3) { run.bump("python-lookup:user-word-with-U-references"); rng.pick(&uref).surface.clone() }
+                else if rng.chance(1, 12) { "あ".repeat(16384 + rng.below(20)) } else if rng.chance(2, 3) { rng.pick(&w.lex.rows).surface.clone() } else { gen_text(rng, w, 3) };
             let outl = if !lists.is_empty() && rng.chance(1, 3) { Some(rng.below(lists.len())) } else { None };
             calls.push(serde_json::json!({"op": "lookup", "query": q, "out": outl}));
             if outl.is_some() { run.bump("python-lookup-with-out"); }
